@@ -346,7 +346,20 @@ def gen_history(seed, tier, classes=None, weights=None, n_ops=(6, 16),
       fit_op(s)
       continue
     if k == "query":
-      ops.append(dict(op="query", h=s.hid, method=r.choice(methods(s)), probe=probe(s)))
+      pb = probe(s)
+      mth = r.choice(methods(s))
+      others = [x for x in syms if x is not s and x.fitted and x.pre and tuple_size(x.name) == tuple_size(s.name)]
+      if s.pre and s.fitted and others and r.random() < 0.3:
+        # the same indicator tuples are put to two estimators that read through
+        # different preprocessors, one right after the other
+        pb = dict(pb, via="indices", cap=8)
+        pb.pop("grid", None)
+        o = r.choice(others)
+        ops.append(dict(op="query", h=s.hid, method=mth, probe=dict(pb, data=s.fit_data or s.data)))
+        ops.append(dict(op="query", h=o.hid, method=mth if mth in methods(o) else "pair_distance",
+                        probe=dict(pb, data=o.fit_data or o.data)))
+        continue
+      ops.append(dict(op="query", h=s.hid, method=mth, probe=pb))
     elif k == "refit":
       other = r.choice(dkeys)
       if s.pre and other != s.data and r.random() < 0.7:
